@@ -177,6 +177,12 @@ def write_evidence(propmod, ctx, tier, wall, violations, known_hits, extra=None,
         "functions_in_program": len(ctx.prog.functions),
         "callee_resolution": {"resolved": ctx.calls_resolved, "total": ctx.calls_total},
         "known_findings_reported": known_hits,
+        "normalisation": {
+            "what": "before the rules ran: locals renamed back to the reference names (sa/alpha.py); helpers / temporaries / constants / loops that are new w.r.t. reference/names.json folded back (sa/derefactor.py). Empty on the reference tree.",
+            "renamed_functions": sorted(getattr(ctx.prog, "renamed", {}) or {})[:50],
+            "derefactored": {k: (v if isinstance(v, list) else v) for k, v in (getattr(ctx.prog, "derefactored", {}) or {}).items() if k.startswith("#")},
+        },
+        "undecided": list(ctx.analysis_errors),
         "notes": ctx.notes,
         "exhaustive": True,
         "trusted_base": [
@@ -184,6 +190,7 @@ def write_evidence(propmod, ctx, tier, wall, violations, known_hits, extra=None,
             "Cython 3 parser (parse only)",
             "clang 14 front end (-ast-dump=json)",
             "frozen fact tables in /verif/rules (each with a reason)",
+            "reference/names.json (function shapes of the reference commit: decides what counts as a NEW helper / temporary / constant)",
             "pysam semantics of call[...], call.phased, set_tag",
         ],
     }
